@@ -826,22 +826,7 @@ fn degree_text_no_third(c: u32, e: u32, p: u32) -> String {
 /// with offset 0 - in particular a height whose subsidy is zero (6 930 000 and beyond) denotes no sat
 /// and must be rejected.  (Second grammar shape of the notation; added after sub-agent seed C31-1,
 /// which skipped the subsidy test exactly when the third component is absent.)
-//# props: C31, C30
-//# kind: complete (every value of the three parsed components: u32 x u32 x u32; text shape `C°E′P″`)
-//# fns: Sat::from_degree
-//# assume: std integer parsing is under contract: u32::from_str_radix may return any value (stub); the text structure is exercised on one concrete string of this shape
-//# assume: Height::starting_sat / Height::subsidy are under their C29 contract (memoised stub height_contract)
-//# timeout: 600
-#[cfg_attr(kani, kani::proof)]
-#[cfg_attr(kani, kani::unwind(36))]
-#[cfg_attr(kani, kani::stub(u32::from_str_radix, stub_u32_from_str_radix))]
-#[cfg_attr(kani, kani::stub(u64::from_str_radix, stub_u64_from_str_radix))]
-#[cfg_attr(kani, kani::stub(Height::starting_sat, contract_starting_sat))]
-#[cfg_attr(kani, kani::stub(Height::subsidy, contract_subsidy))]
-pub fn c31_from_degree_sound_no_third() {
-  let c: u32 = kani::any();
-  let e: u32 = kani::any();
-  let p: u32 = kani::any();
+fn degree_no_third(c: u32, e: u32, p: u32) {
   set_parsed(c, e, p, 0);
   let text = degree_text_no_third(c, e, p);
   if let Ok(s) = Sat::from_degree(&text) {
@@ -854,6 +839,80 @@ pub fn c31_from_degree_sound_no_third() {
     assert!(h / 1_260_000 == c, "C31.from_degree.accepted_cycle_is_the_parsed_one");
     kani::cover!(true, "some abbreviated degree is accepted");
   }
+}
+
+//# props: C31, C30
+//# kind: complete (cycles 0..=5 - the only ones with a subsidy - with every epoch and period offset: u32 x u32; text shape `C°E′P″`; cycles >= 6: c31_from_degree_no_third_late_cycles)
+//# fns: Sat::from_degree
+//# assume: std integer parsing is under contract: u32::from_str_radix may return any value (stub); the text structure is exercised on one concrete string of this shape
+//# assume: Height::starting_sat / Height::subsidy are under their C29 contract (memoised stub height_contract)
+//# timeout: 900
+#[cfg_attr(kani, kani::proof)]
+#[cfg_attr(kani, kani::unwind(36))]
+#[cfg_attr(kani, kani::stub(u32::from_str_radix, stub_u32_from_str_radix))]
+#[cfg_attr(kani, kani::stub(u64::from_str_radix, stub_u64_from_str_radix))]
+#[cfg_attr(kani, kani::stub(Height::starting_sat, contract_starting_sat))]
+#[cfg_attr(kani, kani::stub(Height::subsidy, contract_subsidy))]
+pub fn c31_from_degree_sound_no_third() {
+  let c: u32 = kani::any();
+  kani::assume(c <= 5);
+  degree_no_third(c, kani::any(), kani::any());
+}
+
+//# props: C99
+//# kind: probe
+//# fns: Sat::from_degree
+//# tier: manual
+#[cfg_attr(kani, kani::proof)]
+#[cfg_attr(kani, kani::unwind(36))]
+#[cfg_attr(kani, kani::stub(u32::from_str_radix, stub_u32_from_str_radix))]
+#[cfg_attr(kani, kani::stub(u64::from_str_radix, stub_u64_from_str_radix))]
+#[cfg_attr(kani, kani::stub(Height::starting_sat, contract_starting_sat))]
+#[cfg_attr(kani, kani::stub(Height::subsidy, contract_subsidy))]
+pub fn c99_nt_cycle0() {
+  degree_no_third(0, kani::any(), kani::any());
+}
+
+//# props: C99
+//# kind: probe
+//# fns: Sat::from_degree
+//# tier: manual
+#[cfg_attr(kani, kani::proof)]
+#[cfg_attr(kani, kani::unwind(36))]
+#[cfg_attr(kani, kani::stub(u32::from_str_radix, stub_u32_from_str_radix))]
+#[cfg_attr(kani, kani::stub(u64::from_str_radix, stub_u64_from_str_radix))]
+#[cfg_attr(kani, kani::stub(Height::starting_sat, contract_starting_sat))]
+#[cfg_attr(kani, kani::stub(Height::subsidy, contract_subsidy))]
+pub fn c99_nt_only_subsidy() {
+  let (c, e, p): (u32, u32, u32) = (kani::any(), kani::any(), kani::any());
+  set_parsed(c, e, p, 0);
+  let text = degree_text_no_third(c, e, p);
+  if let Ok(s) = Sat::from_degree(&text) {
+    let h = decided_height(s);
+    let (_start, sub) = height_contract(h);
+    assert!(0 < sub, "C31.from_degree.abbreviated_form_needs_a_block_with_a_subsidy");
+  }
+}
+
+/// cycles 6 and later lie entirely past the last subsidy: no abbreviated degree there denotes a sat
+//# props: C31
+//# kind: complete (every cycle >= 6 with every epoch and period offset; text shape `C°E′P″`)
+//# fns: Sat::from_degree
+//# assume: as c31_from_degree_sound_no_third
+//# timeout: 900
+#[cfg_attr(kani, kani::proof)]
+#[cfg_attr(kani, kani::unwind(36))]
+#[cfg_attr(kani, kani::stub(u32::from_str_radix, stub_u32_from_str_radix))]
+#[cfg_attr(kani, kani::stub(u64::from_str_radix, stub_u64_from_str_radix))]
+#[cfg_attr(kani, kani::stub(Height::starting_sat, contract_starting_sat))]
+#[cfg_attr(kani, kani::stub(Height::subsidy, contract_subsidy))]
+pub fn c31_from_degree_no_third_late_cycles() {
+  let c: u32 = kani::any();
+  kani::assume(c >= 6);
+  let (e, p): (u32, u32) = (kani::any(), kani::any());
+  set_parsed(c, e, p, 0);
+  let text = degree_text_no_third(c, e, p);
+  assert!(Sat::from_degree(&text).is_err(), "C31.from_degree.no_sat_in_cycle_six_or_later");
 }
 
 /// every sat's printed degree parses back to that sat.  By C29 (proved) a sat below the supply is
